@@ -227,6 +227,11 @@ def alias_twin(cd, x):
 def check(cd, tree, extra):
     selector = extra
     x = to_entity(cd, tree)
+    try:
+        early = pickle.dumps(x, protocol=4)  # taken before this case uses the class's reader/writer (for the first case of a
+        # class: before they exist at all); loaded again at the end - a pickle outlives whatever the library does in between
+    except Exception:
+        early = None
     out = check_instance(x, lambda: to_entity(cd, tree), selector, "constructed")
     twin, wrapped = alias_twin(cd, x)
     if wrapped:
@@ -254,6 +259,14 @@ def check(cd, tree, extra):
     for path, v in walk_values(y):
         if isinstance(v, list):
             out.append(("reader-returns-list", f"{cd.path}: {path} is a list in decoder output"))
+    if early is not None:
+        try:
+            late = pickle.loads(early)
+            if late != x or x != late:
+                out.append(("pickle-from-before-codec-use-not-equal", f"{cd.path}: a pickle taken before the class's reader/writer were built and used loads as "
+                            f"{late!r:.300}, the original is {x!r:.300}"))
+        except Exception as e:
+            out.append((f"pickle-from-before-codec-use-raised:{type(e).__name__}", f"{cd.path}: {e!r:.200}"))
     return out
 
 
